@@ -17,19 +17,27 @@ def parseOp (j : Json) : Except String Op := do
 
 def dataJson (key : String) (d : Data) : Json := Json.arr #[Json.str key, optStr d.redirect, optStr d.verifier, optStr d.nonce]
 
-def outJson : Out → Json
+def opName : Op → String
+  | .begin _ n _ _ => n
+  | .callback _ n _ => n
+  | .advance _ => ""
+
+def outJson (defaults : List (String × String)) (op : Op) : Out → Json
   | .saved => Json.mkObj [("out", "saved")]
   | .mismatch => Json.mkObj [("out", "mismatch")]
   | .ticked => Json.mkObj [("out", "ticked")]
-  | .proceeds d => Json.mkObj [("out", "proceeds"), ("redirect", optStr d.redirect), ("verifier", optStr d.verifier), ("nonce", optStr d.nonce)]
+  | .proceeds d => Json.mkObj [("out", "proceeds"), ("redirect", optStr (sentRedirect defaults (opName op) d)), ("verifier", optStr d.verifier), ("nonce", optStr d.nonce)]
 
 def handle : Handler := fun j => do
   let cfg ← j.getObjVal? "cfg"
   let w0 := init (getBoolD cfg "cache" false) (getBoolD cfg "starlette" false) (← getInt cfg "now")
+  let defaults : List (String × String) := match cfg.getObjVal? "defaults" with
+    | .ok (.obj kvs) => kvs.toList.filterMap fun (k, v) => v.getStr?.toOption.map fun s => (k, s)
+    | _ => []
   let ops ← (← getArr j "ops").toList.mapM parseOp
   let (w, outs) := ops.foldl (fun (acc : World × List Json) op =>
     let (w', o) := step acc.1 op
-    (w', acc.2 ++ [outJson o])) (w0, [])
+    (w', acc.2 ++ [outJson defaults op o])) (w0, [])
   let sess (i : Nat) : Json := Json.arr ((w.sessions i).map fun e => dataJson e.key e.data).toArray
   pure (Json.mkObj [("outs", Json.arr outs.toArray),
     ("store", Json.mkObj [("sessions", Json.arr #[sess 0, sess 1]), ("cache", Json.arr (w.cache.map fun p => dataJson p.1 p.2).toArray)])])
